@@ -365,6 +365,9 @@ impl Polynomial<Cmplx> {
             if !( g2.real.is_finite() && g2.imag.is_finite() ) { return; }
             let h = g2 - 2. * ( f / b );
             let sq = ( ( h * (m as f64) - g2 ) * ( m - 1 ) as f64  ).sqrt();
+            // g2 can be just finite ( |p'/p| ~ 1.3e154 ) while the radicand overflows: the NaN moduli below would select the
+            // fallback step of modulus 1 + |x| and carry a converged x ( a root at 0 being polished ) onto another root
+            if !( sq.real.is_finite() && sq.imag.is_finite() ) { return; }
             let mut gp = g + sq;
             let gm = g - sq;
             let abp = gp.abs();
